@@ -166,6 +166,23 @@ fn run(args: &Args, rep: &mut Report) {
     // D
     let n = tier.pick(20_000, 600_000);
     rep.add(
+        "grammar-huge",
+        false,
+        "G-STREAM (0..8 items) with one printable run of 64..200 KiB (16-bit length boundaries)",
+        vcore::drive::huge_par(
+            "grammar-huge",
+            args.seed,
+            tier.pick(100, 5_000),
+            StreamCfg::ALL,
+            || Just(()),
+            |bytes, _, _| match check_events(bytes) {
+                Ok(_) => Verdict::ok(Some(digest(bytes))),
+                Err(m) => Verdict { result: Err(m), nontrivial: None },
+            },
+            |_| Value::Null,
+        ),
+    );
+    rep.add(
         "can-sub-restart",
         false,
         "prefix history (G-STREAM, possibly ending inside any state) . CAN|SUB . rest",
